@@ -94,7 +94,18 @@ def execute(ctx, case):
             return np.asarray(float(vals[0]))
         if form == "list":
             return [float(v) for v in vals[:4]]
-        return vals[:size].reshape(shp) if size else np.zeros(shp)
+        arr = vals[:size].reshape(shp) if size else np.zeros(shp)
+        if arr.ndim >= 2 and size:  # same logical values, other memory layouts
+            lay = int(rng.integers(0, 4))
+            if lay == 1:
+                arr = np.asfortranarray(arr)
+            elif lay == 2:
+                arr = np.ascontiguousarray(arr.T).T  # transposed view of a C array
+            elif lay == 3:
+                big = np.zeros(tuple(2 * d for d in arr.shape))
+                big[tuple(slice(None, None, 2) for _ in arr.shape)] = arr
+                arr = big[tuple(slice(None, None, 2) for _ in arr.shape)]  # strided view
+        return arr
 
     memo = {}
 
